@@ -8,7 +8,8 @@
 // header value, on the client and on the server side.
 //
 // output (TestVerifC15Limits): one line per probe and side
-//     <label> server=<0|1> traces=<n> broken=<0|1> reqmsg=<len> respmsg=<len> hdr=<len of x-big in the request>
+//
+//	<label> server=<0|1> traces=<n> broken=<0|1> reqmsg=<len> respmsg=<len> hdr=<len of x-big in the request>
 package tracer
 
 import (
@@ -82,6 +83,25 @@ func c15LimitsExchange(extra []hpack.HeaderField, msgLen int, maxFrag int) (reqB
 func c15LimitsRun(label string, reqB, respB []byte, chunk int) string {
 	var sb strings.Builder
 	for _, server := range []bool{false, true} {
+		sb.WriteString(c15LimitsSide(label, reqB, respB, chunk, server))
+	}
+	return sb.String()
+}
+
+func c15LimitsSide(label string, reqB, respB []byte, chunk int, server bool) (line string) {
+	s := 0
+	if server {
+		s = 1
+	}
+	// a panic inside the tracing conn's Read / Write is an answer (the property: never crashes), not a harness failure
+	defer func() {
+		if r := recover(); r != nil {
+			line = fmt.Sprintf("%s server=%d traces=-1 broken=1 reqmsg=-1 respmsg=-1 hdr=-1 panic=%s\n", label, s,
+				strings.Join(strings.Fields(fmt.Sprint(r)), "_"))
+		}
+	}()
+	var sb strings.Builder
+	{
 		inner := &c15Inner{}
 		coll := &c15RawCollector{}
 		conn := TracingHTTP2Conn(inner, server, coll)
@@ -135,10 +155,6 @@ func c15LimitsRun(label string, reqB, respB []byte, chunk int) string {
 		broken := 0
 		if tc.readTracer.broken || tc.writeTracer.broken {
 			broken = 1
-		}
-		s := 0
-		if server {
-			s = 1
 		}
 		fmt.Fprintf(&sb, "%s server=%d traces=%d broken=%d reqmsg=%d respmsg=%d hdr=%d\n", label, s, n, broken, reqmsg, respmsg, hdr)
 	}
